@@ -112,6 +112,10 @@ void ParallelAction::onPause() {
 void ParallelAction::onResume() {
     AssembleAction::onResume();
 
+    //! 暂停期间收到的子动作结束事件，在恢复时处理
+    if (checkFinishedChildren())
+        return;
+
     for (Action *action : children_) {
         if (action->state() == State::kPause)
             action->resume();
@@ -141,16 +145,30 @@ void ParallelAction::pauseAllActions() {
 void ParallelAction::onChildFinished(int index, bool is_succ) {
     if (state() == State::kRunning) {
         finished_children_[index] = is_succ;
+        checkFinishedChildren();
 
-        if ((mode_ == Mode::kAnySucc && is_succ) ||
-            (mode_ == Mode::kAnyFail && !is_succ)) {
+    } else if (state() == State::kPause) {
+        //! 暂停期间只记录结果，等恢复时再处理
+        finished_children_[index] = is_succ;
+    }
+}
+
+bool ParallelAction::checkFinishedChildren() {
+    for (auto &item : finished_children_) {
+        if ((mode_ == Mode::kAnySucc && item.second) ||
+            (mode_ == Mode::kAnyFail && !item.second)) {
             stopAllActions();
             finish(true);
-
-        } else if (finished_children_.size() == children_.size()) {
-            finish(true);
+            return true;
         }
     }
+
+    if (finished_children_.size() == children_.size()) {
+        finish(true);
+        return true;
+    }
+
+    return false;
 }
 
 void ParallelAction::onChildBlocked(int, const Reason &why, const Trace &trace) {
